@@ -23,13 +23,17 @@ verus! {
 }
 //@ layout ipfix +append
 verus! {
+//@ alias src/variable_versions/ipfix.rs - IPFixFieldPair
+pub type VfPair = IPFixFieldPair;
+}
+//@ include records_enc_spec.rs
+verus! {
 pub type Records = Vec<BTreeMap<usize, (IPFixField, FieldValue)>>;
-pub uninterp spec fn ipfix_records_enc(s: Seq<BTreeMap<usize, (IPFixField, FieldValue)>>) -> Seq<u8>;
-// R5 stub for `for item in data.fields.iter() { for (_, (_, v)) in item.iter() { result_flowset.extend_from_slice(&v.to_be_bytes()?); } }`
-#[verifier::external_body]
-pub fn vf_export_records(result: &mut Vec<u8>, fields: &Records) -> (r: Result<(), VfError>)
-    ensures r is Ok ==> final(result)@ == old(result)@ + ipfix_records_enc(fields@),
-{ unimplemented!() }
+/// wire image of the records of a data / options-data set (V.ipfix.export_records)
+pub open spec fn ipfix_records_enc(s: Seq<BTreeMap<usize, (IPFixField, FieldValue)>>) -> Seq<u8> { recs_enc(s, s.len() as int) }
+// R5 stubs for the two data-record loops; their contracts are discharged by V.ipfix.export_records on the loops themselves
+//@ stub stubs/ipfix_export_records.rs
+//@ stub stubs/ipfix_export_records_od.rs
 
 /// RFC 7011 3.2 wire image of a field specifier *without* an enterprise number
 pub open spec fn tf_enc(f: TemplateField) -> Seq<u8> { enc16(f.field_type_number) + enc16(f.field_length) }
@@ -84,8 +88,8 @@ impl IPFix {
 //@           assert(field.enterprise_number is None);
 //@           assert(result_flowset@ =~= enc16(options_template.template_id) + enc16(options_template.field_count) + enc16(options_template.scope_field_count) + (tfs_enc(options_template.fields@.take(it2.index@ as int)) + tf_enc(*field))); } }
 //@   after "result_flowset.extend_from_slice(&options_template.padding);": proof { lemma_take_all(options_template.fields@); }
-//@   opaquefor 3: vf_export_records(&mut result_flowset, &data.fields)?;
-//@   opaquefor 5: vf_export_records(&mut result_flowset, &data.fields)?;
+//@   opaquefor 3: vf_export_records(&mut result_flowset, data)?;
+//@   opaquefor 5: vf_export_records_od(&mut result_flowset, data)?;
 //@   forend 0: proof {
 //@       if all_plain(self.flowsets@) {
 //@           assert(body_plain(flow.body));
